@@ -29,7 +29,7 @@ Local Open Scope string_scope.
 (* b_bare: the output is the chunks as they are (no "<tag><name>:" prefix), so that a tool can
    answer the empty string *)
 Record behav : Type := mkB { b_chunks : list string; b_fail : N; b_failat : option nat; b_panic : bool; b_bare : bool }.
-Inductive hcfg : Type := HNone | HOk | HErr (e : N).
+Inductive hcfg : Type := HNone | HOk | HErr (e : N) | HPanic.
 
 Definition prefix_first (name : string) (cs : list string) : list string :=
   match cs with [] => [] | c :: r => (name ++ ":" ++ c) :: r end.
@@ -72,6 +72,7 @@ Definition handler_of (h : hcfg) : option (string -> string -> tres) :=
   | HNone => None
   | HOk => Some (fun n a => TOk ("unk:" ++ n ++ ":" ++ a))
   | HErr e => Some (fun _ _ => TErr e)
+  | HPanic => Some (fun _ _ => TPanic)
   end.
 
 (* monomorphic constructors (no implicit arguments): the generated case files elaborate
